@@ -44,7 +44,8 @@ func parseLikeCensor(s string, pg bool) (sqlparser.Statement, error) {
 	for start < end && (toks[start].kind == tWS || (toks[start].kind == tComment && !strings.HasPrefix(toks[start].text, "/*!"))) {
 		start++
 	}
-	for end > start && (toks[end-1].kind == tWS || toks[end-1].kind == tComment) {
+	// /*! ... */ is executed by MySQL: it belongs to the statement wherever it stands (in PostgreSQL it is a comment)
+	for end > start && (toks[end-1].kind == tWS || (toks[end-1].kind == tComment && (pg || !strings.HasPrefix(toks[end-1].text, "/*!")))) {
 		end--
 	}
 	if end > start && toks[end-1].kind == tPunct && toks[end-1].text == ";" {
